@@ -357,6 +357,15 @@ Refines(G, e, txt) ==
         r == Run(G, e, txt, 0)
     IN s.t = "ill" \/ (r.st = (s.t = "ok") /\ (r.st => (r.res = s.v /\ r.pos = s.e)))
 
+\* the three clauses below with one evaluation of meaning and machine (for instances with many texts)
+\* (defined here, not in the instances: modules that also extend Fam see Fam!Run under the name Run)
+VMClauses(G, e, txt) ==
+    LET s == Eval(G, e, EmptyEnv, txt, 0)
+        r == Run(G, e, txt, 0)
+    IN s.t = "ill" \/ ( /\ r.st = (s.t = "ok") /\ (r.st => (r.res = s.v /\ r.pos = s.e))
+                         /\ ((~r.st /\ ~CPS(G, e)) => r.pos = 0)
+                         /\ (r.st \/ r.res[1] # "bad") )
+
 \* the flags are sufficient: whoever relies on "cannot partially succeed" finds the position where it was
 FlagSound(G, e, txt) ==
     LET s == Eval(G, e, EmptyEnv, txt, 0)
